@@ -185,19 +185,20 @@ def paths_rule(ctx):
                 continue
             calls = []
             for n in sir.walk(arm["body"]):
-                if n.get("k") == "mcall" and not n["m"].startswith("to_proc_gen_rec") and sir.root_expr_name(n["recv"]) == b:
+                GEN = ("to_proc_gen_rec", "to_proc_gen_rec_and_end_path", "to_proc_gen_rec_and_combine_paths")
+                if n.get("k") == "mcall" and n["m"] not in GEN and sir.root_expr_name(n["recv"]) == b:
                     # a private helper that generates `self` through one of the generator methods: judge the inner call with the
                     # helper's parameters replaced by the arguments of this call
                     hs = [g for g in tc.fns if g.name == n["m"] and g.base == "Expression" and g.body]
                     if len(hs) == 1:
-                        inner = [x for x in sir.walk(hs[0].body) if x.get("k") == "mcall" and x["m"].startswith("to_proc_gen_rec") and sir.expr_str(sir.strip_ref(x["recv"])) == "self"]
+                        inner = [x for x in sir.walk(hs[0].body) if x.get("k") == "mcall" and x["m"] in GEN and sir.expr_str(sir.strip_ref(x["recv"])) == "self"]
                         pn = [p_ for p_ in hs[0].param_names() if p_ != "self"]
                         if len(inner) == 1 and len(pn) == len(n["args"]):
                             amap = {p_: a for p_, a in zip(pn, n["args"])}
                             virt = {"k": "mcall", "m": inner[0]["m"], "recv": n["recv"], "args": [amap.get(sir.expr_str(sir.strip_ref(a)), a) for a in inner[0]["args"]], "sp": n["sp"], "_helper": n}
                             calls.append(virt)
                             continue
-                if n.get("k") == "mcall" and n["m"].startswith("to_proc_gen_rec"):
+                if n.get("k") == "mcall" and n["m"] in GEN:
                     r = sir.root_expr_name(n["recv"])
                     if r == b:
                         calls.append(n)
@@ -382,7 +383,11 @@ def runtime_rule(ctx):
             d = "a computed operand never reports a state"
         obs.append(ob("C06.runtime/notinpath", okc, ctx.where(f), "a computed operand that read at least one path still reports a (truthy-testable) state: %s" % d,
                       witness=None if okc is not False else "<t is=\"x\" data=\"{{ bb: a + 1 }}\"/> : marking only `a` does not reach the sub-template"))
-        pre = any(n.get("k") == "call" and (sir.call_path(n) or "").endswith("to_path_analysis_str_group_prefix") for n in sir.walk(f.body))
+        # the prefix is recognised by what is written (`!!` .. `||` around a loop over the sub-paths), in this function or in a
+        # private helper it calls
+        lits = [p_[1] for n in sir.walk_reach(tc, f) for p_ in ((sir.write_fmt_call(n) or (None, []))[1]) if p_[0] == "lit"]
+        loops_subp = any(n.get("k") == "for" and any(x.get("k") == "mcall" and x["m"] == "to_path_analysis_str" for x in sir.walk(n["body"])) for n in sir.walk_reach(tc, f))
+        pre = any(l.startswith("!!") for l in lits) and any(l.endswith("||") for l in lits) and loops_subp
         obs.append(ob("C06.runtime/group-prefix", pre, ctx.where(f), "the accumulated sub-paths are emitted as a `!!(..||..)||` prefix: %s" % pre))
     return obs
 
